@@ -15,7 +15,7 @@ ACCESSORS = {'get', 'values', 'items', 'keys', 'pop', 'popitem', 'setdefault', '
 SHALLOW = {'list', 'dict', 'tuple', 'set', 'sorted', 'frozenset', 'copy', 'reversed', 'OrderedDict'}
 FRESH_BUILTINS = {'len', 'str', 'int', 'float', 'bool', 'isinstance', 'range', 'min', 'max', 'sum', 'abs', 'any', 'all', 'callable',
                   'hasattr', 'type', 'id', 'repr', 'hash', 'zip', 'enumerate', 'map', 'filter', 'getattr', 'print', 'round', 'iter', 'next'}
-CONST_FLAGS = ('copy',)     # private boolean flags on which summaries are specialised
+CONST_FLAGS = ('copy', 'copy_on_write')     # private boolean flags on which summaries are specialised
 
 
 def cap(d):
@@ -202,7 +202,7 @@ class FuncAI:
             if k == KN: continue
             out[k] = a.get(k, EMPTY).join(b.get(k, EMPTY))
         ka, kb = a.get(KN, {}), b.get(KN, {})
-        out[KN] = {k: v for k, v in ka.items() if k in kb and kb[k] == v}
+        out[KN] = {k: v.join(kb[k]) for k, v in ka.items() if k in kb}
         return out
     def kill_known(self, name, st):
         kn = st[KN] = dict(st.get(KN, {}))
@@ -495,6 +495,7 @@ class FuncAI:
                     return fresh(elem_of(*[load(a) for a in allargs] + allargs), (c,))
                 return EMPTY
             if n == 'copy' and 'copy' not in self.params or (n == 'copy' and n not in st): return shallow(args[0]) if args else EMPTY
+            if n not in st and self.repo.r.ext_imports[self.mod].get(n) == 'copy.copy': return shallow(args[0]) if args else EMPTY
             if n in SHALLOW: return shallow(args[0], ('list',) if n in ('list','sorted') else (('dict',) if n == 'dict' else ())) if args else fresh()
             if n in ('zip','map','filter','enumerate'): return fresh(elem_of(*[load(a) for a in args]))
             if n in ('getattr',): return load(args[0]) if args else EMPTY
